@@ -72,3 +72,8 @@ Inductive sclass : Set := Small | Medium | Large | Huge | Nostack.
    before the split (both creation paths), only inside the run_now branch, only on the staged path
    after it, or nowhere.  Regenerated from the source into Gen/GenSwapctx.current_resolution. *)
 Inductive cur_site : Set := CurBeforeSplit | CurRunNowOnly | CurStagedOnly | CurNever.
+
+(* ---- which end of a per-size heap (a std::list) an object is taken from / put back at:
+   thread_queue uses back()/pop_back() and push_back(), queue_holder_thread (the heaps behind
+   thread_queue_mc, shared-priority scheduler) front()/pop_front() and push_front().  Regenerated. *)
+Inductive hend : Set := HFront | HBack.
